@@ -39,8 +39,8 @@ Definition iw_ok (c : iwcase) : bool :=
   | Panic => false
   end.
 
-(* (file, root, osz, ndims, cdims, Go class, Go entries) *)
-Definition ircase := (packed * N * N * nat * list N * N * list gentry)%type.
+(* (file without its trailing zero bytes, number of trailing zero bytes, root, osz, ndims, cdims, Go class, Go entries) *)
+Definition ircase := (packed * N * N * N * nat * list N * N * list gentry)%type.
 Definition ir_ok (c : ircase) : bool :=
-  let '(file, root, osz, ndims, cdims, gclass, gents) := c in
-  read_matches (read_index_nd (unpack file) root osz ndims cdims) gclass gents.
+  let '(file, ztail, root, osz, ndims, cdims, gclass, gents) := c in
+  read_matches (read_index_nd (unpack file ++ zeros (N.to_nat ztail)) root osz ndims cdims) gclass gents.
